@@ -705,6 +705,11 @@ public:
     void realTime_ResetState();
 
     /**
+     * @brief Put every MIDI channel back on the default program and bank
+     */
+    void realTime_ResetPrograms();
+
+    /**
      * @brief Note On event
      * @param channel MIDI channel
      * @param note Note key (from 0 to 127)
